@@ -27,8 +27,11 @@ COLTYPES = {
     "WGT": dict(type="covariate", scale="ratio"),
     "TVC": dict(type="covariate", scale="ratio"),
     "RN": dict(type="unknown", scale="ratio"),
+    # dropped decoy columns: DataInfo.typeix must not select them
+    "OLDAMT": dict(type="dose", scale="ratio", drop=True),
+    "OLDEV": dict(type="event", scale="nominal", datatype="int64", drop=True),
 }
-INTCOLS = ("ID", "MDV", "EVID", "CMT", "ADMID", "ADDL", "SS")
+INTCOLS = ("ID", "MDV", "EVID", "CMT", "ADMID", "ADDL", "SS", "OLDEV")
 
 TAIL = ["DV", "WGT", "TVC", "RN"]
 # layout -> (extra columns after AMT, record kinds)
@@ -45,11 +48,15 @@ LAYOUTS = {
     "addl2": (["ADDL", "II"], ["O", "D", "DA", "DB"]),
     "ss": (["SS", "II"], ["O", "D", "DS"]),
     "rate": (["RATE"], ["O", "D", "DR"]),
+    # EVID layout with dropped columns of type dose/event in front of the real ones
+    "decoy": (["EVID"], ["O", "D", "E2"]),
 }
 RESET_KINDS = ("E3", "E4", "E41", "E42")
 
 
 def columns(layout):
+    if layout == "decoy":
+        return ["ID", "TIME", "OLDAMT", "AMT", "OLDEV", "EVID"] + TAIL
     return ["ID", "TIME", "AMT"] + LAYOUTS[layout][0] + TAIL
 
 
@@ -136,6 +143,8 @@ def materialise(layout, ids, individuals):
                 admid = last_admid  # as add_admid would have generated it
             elif layout == "admid":
                 last_admid = admid
+            r["OLDAMT"] = 5.0
+            r["OLDEV"] = 1
             vals = {"EVID": evid, "CMT": cmt, "ADMID": admid, "ADDL": addl, "II": ii, "SS": ss,
                     "RATE": rate, "MDV": mdv}
             for c in cols:
@@ -151,7 +160,7 @@ def materialise(layout, ids, individuals):
 
 def render(layout, recs):
     cols = columns(layout)
-    show = [c for c in cols if c not in ("WGT", "TVC", "RN", "DV")]
+    show = [c for c in cols if c not in ("WGT", "TVC", "RN", "DV", "OLDAMT", "OLDEV")]
     return "[" + " | ".join(",".join(f"{c}={_fmt(r[c])}" for c in show) for r in recs) + "]"
 
 
